@@ -437,11 +437,11 @@ def toyData : Member := ⟨canonHeader 0 0 0 0 0 0xff 30, [3, 7, 8, 9], [24, 0, 
 def toyEmpty : Member := ⟨canonHeader 0 0 0 0 0 0xff 31, [1, 0, 0, 0xff, 0xff], [0, 0, 0, 0], [0, 0, 0, 0], []⟩
 def toyMarker : Member := ⟨canonHeader 0 0 0 0 0 0xff 28, [3, 0], [0, 0, 0, 0], [0, 0, 0, 0], []⟩
 
-theorem toyData_wf : toyData.WellFramed toyCodec :=
+def toyData_wf : toyData.WellFramed toyCodec :=
   ⟨⟨canonHeader_ok _ _ _ _ _ _ _ (by decide) (by decide), by decide, by decide, by decide, by decide, by decide⟩, by decide⟩
-theorem toyEmpty_wf : toyEmpty.WellFramed toyCodec :=
+def toyEmpty_wf : toyEmpty.WellFramed toyCodec :=
   ⟨⟨canonHeader_ok _ _ _ _ _ _ _ (by decide) (by decide), by decide, by decide, by decide, by decide, by decide⟩, by decide⟩
-theorem toyMarker_wf : toyMarker.WellFramed toyCodec :=
+def toyMarker_wf : toyMarker.WellFramed toyCodec :=
   ⟨⟨canonHeader_ok _ _ _ _ _ _ _ (by decide) (by decide), by decide, by decide, by decide, by decide, by decide⟩, by decide⟩
 /-- the marker member is byte for byte the BGZF EOF marker -/
 example : toyMarker.bytes = magicBlock := by decide
